@@ -29,7 +29,11 @@ def execute(source: bytes, choices=(), validate=1, quitonerror=1, parsed=True, l
     from pyrtcm import RTCMReader  # pylint: disable=import-outside-toplevel
 
     ch = chooser if chooser is not None else Chooser(choices)
-    if returns is bytes:
+    if returns == "seekable":
+        from .doubles import SeekableFaultStream  # pylint: disable=import-outside-toplevel
+
+        stream = SeekableFaultStream(source, ch, faults=faults)
+    elif returns is bytes:
         stream = FaultStream(source, ch, faults=faults)
     else:  # a stream whose read()/readline() hand over another bytes-like type
         from .doubles import TypedStream  # pylint: disable=import-outside-toplevel
